@@ -576,8 +576,12 @@ def d4_scatter(ctx):
         ctx.check(okw, f2, wgs[0] if wgs else f2.node, wgs[0] if wgs else "WindowGenerator", "reconstruction windows do not overlap (each sample written once)",
                   "reconstruction windows overlap: samples would be written twice", key="recon-overlap")
         return
-    ctx.check(p1 == want, f1, f1.node, f"check pairs {sorted(p1, key=str)}", "verification reassembles: first shank all columns incl. sync, others without their sync",
-              f"verification scatter is {sorted(p1, key=str)}; expected {sorted(want, key=str)}", key="check-pairs")
+    from rules import C04 as _C04
+    if not p1 and _C04.is_piecewise(f1):
+        ctx.note("check_NP24 verifies run by run without re-assembling a frame: its coverage is decided by C04-D2 (run tables); here only the reconstruction is compared with the expected pairs")
+    else:
+        ctx.check(p1 == want, f1, f1.node, f"check pairs {sorted(p1, key=str)}", "verification reassembles: first shank all columns incl. sync, others without their sync",
+                  f"verification scatter is {sorted(p1, key=str)}; expected {sorted(want, key=str)}", key="check-pairs")
     ctx.check(p2 == want, f2, f2.node, f"reconstruct pairs {sorted(p2, key=str)}", "reconstruction scatters exactly like the verified reassembly",
               f"reconstruction scatter is {sorted(p2, key=str)}; expected {sorted(want, key=str)} (what check_NP24 verified)", key="recon-pairs")
     # reconstruct: raw integer path
